@@ -204,7 +204,7 @@ theorem A_segReq (g : p.Geo cfg cfgB dev devB) {now : Nat} {k : Key} {b : Body} 
     (hf : (specA p cfg dev).FC k b a) :
     Local.HRes (specA p cfg dev).CI (specA p cfg dev).OO k (clientSegmentedRequest cfg now k b a) := by
   have hc : SendCtx p cfg dev k b := hci.1 (Or.inl hst)
-  have hgen : k = p.kA → a.ty = 3 → Genuine p.TR a := fun hk h3 => (hf hk).1 h3
+  have hgen : k = p.kA → a.ty = 3 → Genuine p.TR a := hf
   unfold clientSegmentedRequest
   split
   · dsimp only
@@ -229,10 +229,14 @@ theorem A_segReq (g : p.Geo cfg cfgB dev devB) {now : Nat} {k : Key} {b : Body} 
             exact none_res (all_one (OA_confirm_whole hid (by simpa using hns) hgen))
           · rename_i hns
             have hseg : a.seg = true := by simpa using hns
-            refine some_res (CIA_recv rfl ⟨a, rfl, hid, ?_⟩) all_nil
-            intro hk
-            have hi : a.invokeId = p.id := by rw [hid, hk]; rfl
-            exact recvBuf_first g h3 hi hseg ((hf hk).2 hst h3 hseg) (hgen hk h3) rfl rfl rfl
+            split
+            · exact abortBoth_A _ _
+            · rename_i hseq
+              have hseq' : a.seq = 0 := by omega
+              refine some_res (CIA_recv rfl ⟨a, rfl, hid, ?_⟩) all_nil
+              intro hk
+              have hi : a.invokeId = p.id := by rw [hid, hk]; rfl
+              exact recvBuf_first g h3 hi hseg hseq' (hgen hk h3) rfl rfl rfl
       · split
         · rename_i h567
           have : a.ty = 5 ∨ a.ty = 6 ∨ a.ty = 7 := by simp at h567; omega
@@ -246,7 +250,7 @@ theorem A_awaitConf (g : p.Geo cfg cfgB dev devB) {now : Nat} {k : Key} {b : Bod
     (hf : (specA p cfg dev).FC k b a) :
     Local.HRes (specA p cfg dev).CI (specA p cfg dev).OO k (clientAwaitConfirmation cfg now k b a) := by
   have hc : SendCtx p cfg dev k b := hci.1 (Or.inr hst)
-  have hgen : k = p.kA → a.ty = 3 → Genuine p.TR a := fun hk h3 => (hf hk).1 h3
+  have hgen : k = p.kA → a.ty = 3 → Genuine p.TR a := hf
   unfold clientAwaitConfirmation
   split
   · exact none_res (all_one (OA_confirm (by omega)))
@@ -310,7 +314,7 @@ theorem A_segConf (g : p.Geo cfg cfgB dev devB) {now : Nat} {k : Key} {b : Body}
     · obtain ⟨hmore, hlast⟩ := hin hs
       by_cases hk : k = p.kA
       · have hi' : a.invokeId = p.id := by rw [hid, hk]; rfl
-        have hgen := (hf hk).1 h3 h3 hi'
+        have hgen := hf hk h3 h3 hi'
         have hwf := g.wfR
         have hn1 : p.TR.count ≠ 1 := by
           intro h1; have := (hgen.1 h1).1; rw [hseg] at this; cases this
